@@ -7,6 +7,7 @@
 mod alloc;
 mod build;
 mod common;
+mod fixtures;
 mod isolate;
 mod observe;
 mod par;
@@ -65,6 +66,7 @@ fn main() {
         ("replay", "xlsb") => props::xlsb::replay(&args),
         ("replay", "xlsbframes") => props::xlsb::frames(&args),
         ("drive", "xlsb") => props::xlsb::drive(&args),
+        ("drive", "fixtures") => fixtures::drive(&args),
         ("replay", "biffcells") => isolate::run_replay(&args, props::biff::replay_cells),
         ("replay", "rk") => props::biff::replay_rk(&args),
         ("replay", "sst") => isolate::run_replay(&args, props::sst::replay),
